@@ -490,14 +490,40 @@ def shutdown_rules(R, ctx):
     reach = cg.reachable([sb.path], spawn=False)
     R.check('R07.6', f"{sb.path}|reaches-cleanup-shutdown", b.path in reach, "State::shutdown reaches CleanupThreadHandle::shutdown",
             "State::shutdown no longer shuts the cleanup thread down", where=sb.loc())
-    # the thread body: loop around recv; Act -> cleanup; anything else -> leave
-    tb = [x for x in f.fn_bodies() if x.kind == 'Closure' and x.path.startswith('writers::file_log_writer::state::list_and_cleanup::start_cleanup_thread::')]
-    ok = False
-    for x in tb:
-        recvs = [bb for bb, t in x.calls() if callee_name(t) == 'std::sync::mpsc::Receiver::<T>::recv']
-        impl = [bb for bb, t in x.calls() if callee_name(t) == IMPL]
-        if recvs and impl:
-            # after the impl call control returns to the recv (loop), and from recv a return is reachable without passing impl
-            ok = all(C.path_exists(x, i, recvs[0]) for i in impl) and any(x.blocks[bb_]['term']['k'] == 'return' for bb_ in C.reachable_after(x, recvs[0], avoid=impl))
-    R.check('R07.6', 'cleanup-thread-loop', ok, "loop: recv -> Act: cleanup -> recv; other message / disconnect: leave",
-            "the cleanup thread's loop shape changed (must process every queued Act and leave on Die/disconnect)", where=tb[0].loc() if tb else None)
+    # the thread body, as decision rows of the thread entry (closure or named function it runs): every Act received is followed by a
+    # cleanup run before the next receive / before the thread ends (a request that was queued must not be dropped, e.g. because a
+    # Die is already waiting behind it: shutdown would return with rotated files beyond the limit); Die / disconnect leave the loop
+    spawner = 'writers::file_log_writer::state::list_and_cleanup::start_cleanup_thread'
+    entries = [e for e in spawned_entries(cg, spawner) if e in f.bodies]
+    if len(entries) != 1:
+        raise CheckError(f"R07.6: {len(entries)} thread entries spawned by start_cleanup_thread")
+    RECV = r'Receiver::<T>::(recv|try_recv|recv_timeout)$|Receiver::<T>::(try_iter|iter)$'
+    I = FDI(f, effects=[RECV, re.escape(IMPL) + '$', r'as std::iter::Iterator>::next$'], no_inline=[re.escape(IMPL) + '$'], loop_k=1, max_steps=20000)
+    rows = I.run(entries[0])
+    bad = None
+    n_act = n_exit = 0
+    for r in rows:
+        if r.undecided:
+            raise CheckError(f"R07.6 cleanup thread: UNDECIDED {r.undecided}")
+        names = [e[0].split('::')[-1] for e in r.effects]
+        # the message of each blocking receive
+        for i, e in enumerate(r.effects):
+            if not e[0].endswith('::recv'):
+                continue
+            k = i + 1
+            okv = r.get(f"variant({e[0]}#{k})")
+            msg = r.get(f"variant({e[0]}#{k}.0)")
+            nxt = next((j for j in range(i + 1, len(r.effects)) if r.effects[j][0].endswith('::recv')), len(r.effects))
+            seg = names[i + 1:nxt]
+            if okv == 'Ok' and msg == 'Act':
+                n_act += 1
+                if IMPL.split('::')[-1] not in seg:
+                    bad = f"an Act request is received but no cleanup run follows before the thread goes on / ends (effects after it: {seg})"
+            elif okv == 'Err' or (okv == 'Ok' and msg not in (None, 'Act')):
+                n_exit += 1
+                if nxt != len(r.effects) or IMPL.split('::')[-1] in seg:
+                    bad = "the thread does not leave its loop on Die / disconnect"
+    if not bad and (n_act < 1 or n_exit < 1):
+        raise CheckError(f"R07.6 cleanup thread: form not recognised (Act rows {n_act}, exit rows {n_exit})")
+    R.check('R07.6', 'cleanup-thread-loop', not bad, f"every Act is followed by a cleanup run ({n_act} cases); Die / disconnect leave ({n_exit} cases)",
+            f"cleanup thread: {bad}", where=f.bodies[entries[0]].loc())
